@@ -41,6 +41,7 @@ def gS (act : Stmt → List Stmt → Action) : Stmt → Stmt
   | .while c b => .while c (gS act b)
   | .doWhile b c => .doWhile (gS act b) c
   | .for i t u b => .for i t u (gS act b)
+  | .forOf k x e b => .forOf k x e (gS act b)
   | .try b hc p cb hf fb => .try (gL act b) hc p (gL act cb) hf (gL act fb)
   | .labeled l s => .labeled l (gS act s)
   | .switch e cs => .switch e (gC act cs)
@@ -97,6 +98,7 @@ def sizeS : Stmt → Nat
   | .while _ b => 1 + sizeS b
   | .doWhile b _ => 1 + sizeS b
   | .for _ _ _ b => 1 + sizeS b
+  | .forOf _ _ _ b => 1 + sizeS b
   | .try b _ _ cb _ fb => 1 + sizeL b + sizeL cb + sizeL fb
   | .labeled _ s => 1 + sizeS s
   | .switch _ cs => 1 + sizeC cs
